@@ -227,6 +227,8 @@ CHECKS = {
         "assumptions": ["SysMemSoftLimit not exercised (it calls debug.FreeOSMemory)"],
         "jobs": [
             {"run": "^TestC12Eviction$", "n": {"quick": 6000, "thorough": 60000}},
+            # LFU rank under truly parallel serves (real goroutines, outside a bubble)
+            {"run": "^TestC12LFUParallel$", "n": {"quick": 40, "thorough": 400}},
         ],
     },
     "C13": {
@@ -257,6 +259,8 @@ CHECKS = {
         "assumptions": ["exporter and importer live in one process and share GobTypesHash; a mismatch is simulated by rewriting the typesHash query parameter"],
         "jobs": [
             {"run": "^TestC14Transfer$", "n": {"quick": 600, "thorough": 6000}, "shrinktime": "30s"},
+            # a real HTTP round trip over the loopback interface with dumps up to about a megabyte
+            {"run": "^TestC14RealHTTP$", "n": {"quick": 60, "thorough": 600}, "shrinktime": "20s"},
             {"run": "^TestC14HashLaws$", "n": {"quick": 60, "thorough": 600}},
             {"run": "^TestC14LateRegistration$", "n": {"quick": 40, "thorough": 300}},
         ],
